@@ -707,9 +707,16 @@ pub fn gen_script(rng: &mut Rng, start: &Pos, flavor: Flavor, max_steps: usize) 
 /// reversible cycles from a start whose counters are saturated, each followed by `eq`.
 /// C17 / C09: a fixed line of moves from a start position, then the printed forms (all styles) and a walk
 pub fn gen_line(rng: &mut Rng, start: &Pos, line: &[Move]) -> Script {
+    let pushes: Vec<String> = line.iter().map(|m| format!("pm {}", mv_fmt(m))).collect();
+    gen_text_line(rng, start, &pushes)
+}
+
+/// the same with the push steps given as script text (`pm …`, `ps …`, `pu …`)
+pub fn gen_text_line(rng: &mut Rng, start: &Pos, pushes: &[String]) -> Script {
+    let line = pushes;
     let mut steps: Vec<String> = Vec::new();
     for m in line {
-        steps.push(format!("pm {}", mv_fmt(m)));
+        steps.push(m.clone());
     }
     for s in ["s", "u", "U"] {
         let n = *rng.pick(&["o", "b", "c1", "c7"]);
